@@ -266,6 +266,13 @@ func init() {
 				for i, n := range []int{100, 4000, 4900, 4990, 5000, 5010, 5100, 6000, 20000} {
 					ops = append(ops, &c12op{kind: []string{"send", "important", "call"}[i%3], addr: "pid", payload: mkPayload(n, byte(i))})
 				}
+				// every payload size across the limit, byte by byte (the frame adds a few dozen bytes of headers):
+				// each send is either refused or delivered, whichever side of the limit its frame falls on
+				if cname == "none" {
+					for n := limit - 70; n <= limit+4; n++ {
+						ops = append(ops, &c12op{kind: []string{"send", "important"}[n%2], addr: "pid", payload: mkPayload(n, byte(2*n))})
+					}
+				}
 				for _, op := range ops {
 					op := op
 					nw.a.nsetup++
